@@ -10,6 +10,7 @@ for n in $names; do
   if [ -n "$(git -C /repo status --porcelain --untracked-files=no)" ]; then echo "repo dirty, abort"; exit 2; fi
   props=$(python3 -c "import json;m=json.load(open('$d/meta.json'));print(','.join(m.get('checks',[m['property']])))")
   [ -n "$ALL" ] && props=all
+  [ -n "$PROPS" ] && props=$PROPS
   git -C /repo apply /verif/$d/patch.diff || { echo "$n: patch does not apply"; continue; }
   out=$(./vcheck.sh -p $props -no-evidence 2>&1); rc=$?
   git -C /repo checkout -- .
